@@ -56,6 +56,7 @@ type faultRow struct {
 	Report string   `json:"report"` // must | never | any
 	Cont   string   `json:"cont"`   // must | mustnot | any
 	Need   []string `json:"need"`   // sentinels errors.Is must find once this failure occurred and report = must
+	Carry  []string `json:"carry"`  // never-reported sentinels that may be found after all once this failure occurred
 }
 
 type config struct {
@@ -163,6 +164,14 @@ func produce(kind string, i int) error {
 		return context.Canceled
 	case "excl":
 		return errX
+	}
+	// panicW_<S>: panic with a value that IS (odd items) or WRAPS (even items) the sentinel S
+	if strings.HasPrefix(kind, "panicW_") {
+		v := sentinel(strings.TrimPrefix(kind, "panicW_"))
+		if i%2 == 0 {
+			v = fmt.Errorf("the user function of item %d gave up: %w", i, v)
+		}
+		panic(v)
 	}
 	panic("unknown kind " + kind)
 }
@@ -593,7 +602,11 @@ func replay(in input) (result map[string]any) {
 	// abort stops: at most `bound` further items, not the rest of the input
 	if abortBase >= 0 {
 		if extra := len(w.entered) - abortBase; extra > cfg.Bound {
-			return fail(last, "abort/other-workers-consume-input", fmt.Sprintf(
+			key := "abort/other-workers-consume-input"
+			if k := fault[abortItem].Kind; strings.HasPrefix(k, "panicW_") {
+				key += "/after-" + k // the aborting failure was a panic whose value is / wraps a sentinel
+			}
+			return fail(last, key, fmt.Sprintf(
 				"item %d failed (%s) without ContinueOn*: after that user function had returned (all others held, library quiescent) "+
 					"%d further items were started by the %d workers - the property allows at most %d; all %d items of the input were consumed: %v",
 				abortItem, fault[abortItem].Kind, extra, cfg.K, cfg.Bound, len(w.entered), w.entered))
@@ -618,9 +631,17 @@ func replay(in input) (result map[string]any) {
 			anySeen = true
 		}
 	}
-	// never reported
+	// never reported - unless the sentinel came as the value of a (reported) panic
+	carried := map[string]bool{}
+	for _, f := range cfg.Faults {
+		if w.exited[f.Item] {
+			for _, nm := range f.Carry {
+				carried[nm] = true
+			}
+		}
+	}
 	for _, nm := range cfg.Never {
-		if w.found(nm) {
+		if w.found(nm) && !carried[nm] {
 			key := "never-reported-error-found/" + nm
 			if nm == "X" {
 				key = "excluded-error-reported"
@@ -688,30 +709,39 @@ type cellIn struct {
 func classify(in cellIn) map[string]any {
 	c := in.Cell
 	ctx := context.Background()
+	item := 1
 	wrappers := map[string]func() error{
 		"processor": func() error {
-			return fun.Processor[int](func(context.Context, int) error { return produce(c.Kind, 1) }).WithRecover()(ctx, 1)
+			return fun.Processor[int](func(context.Context, int) error { return produce(c.Kind, item) }).WithRecover()(ctx, 1)
 		},
 		"transform": func() error {
-			_, err := fun.Transform[int, int](func(context.Context, int) (int, error) { return 0, produce(c.Kind, 1) }).WithRecover()(ctx, 1)
+			_, err := fun.Transform[int, int](func(context.Context, int) (int, error) { return 0, produce(c.Kind, item) }).WithRecover()(ctx, 1)
 			return err
 		},
 		"producer": func() error {
-			_, err := fun.Producer[int](func(context.Context) (int, error) { return 0, produce(c.Kind, 1) }).WithRecover()(ctx)
+			_, err := fun.Producer[int](func(context.Context) (int, error) { return 0, produce(c.Kind, item) }).WithRecover()(ctx)
 			return err
 		},
 		"worker": func() error {
-			return fun.Worker(func(context.Context) error { return produce(c.Kind, 1) }).WithRecover()(ctx)
+			return fun.Worker(func(context.Context) error { return produce(c.Kind, item) }).WithRecover()(ctx)
 		},
 	}
 	names := []string{"processor", "transform", "producer", "worker"}
 	transcription := ""
+	// a panic value that IS the sentinel (item 1) and one that WRAPS it (item 2)
+	if strings.HasPrefix(c.Kind, "panicW_") {
+		names = append(names, "processor/wraps", "transform/wraps", "producer/wraps", "worker/wraps")
+	}
 	for _, wn := range names {
+		item = 1
+		if strings.HasSuffix(wn, "/wraps") {
+			item = 2
+		}
 		var escaped any
 		var errv error
 		func() {
 			defer func() { escaped = recover() }()
-			errv = wrappers[wn]()
+			errv = wrappers[strings.TrimSuffix(wn, "/wraps")]()
 		}()
 		bad := func(key, what string) map[string]any {
 			return map[string]any{"n": in.N, "ok": false, "key": "wgerr/classify/" + key,
@@ -776,7 +806,8 @@ func classify(in cellIn) map[string]any {
 
 // ------------------------------------------------------------------ record (free-running)
 
-var allKinds = []string{"err", "wrapped", "panicErr", "panicStr", "panicOther", "skip", "eof", "abort", "ctx", "excl"}
+var allKinds = []string{"err", "wrapped", "panicErr", "panicStr", "panicOther", "skip", "eof", "abort", "ctx", "excl",
+	"panicW_EOF", "panicW_SKIP", "panicW_CTX", "panicW_X", "panicW_ABORT"}
 
 func record(n int, seed int64) {
 	rng := rand.New(rand.NewSource(seed))
